@@ -44,7 +44,9 @@ META = dict(
 
 REUSE = ['full', 'same', 'carried', 'nometa', 'nodata-then-same']
 PROPS = [['pi', 3, -5], ['pu', 8, 2 ** 63 + 1], ['pd', 10, 1.25], ['ps', 0x20, 'grüß'], ['pt', 0x44, [86400, 2 ** 62]], ['pb', 0x21, True],
-         ['pf', 9, -0.5], ['ph', 2, -300]]
+         ['pf', 9, -0.5], ['ph', 2, -300],
+         # sign-carrying extremes: a timestamp before the 1904 epoch (negative seconds) with a fraction >= 2**63, INT64_MIN
+         ['pn', 0x44, [-(2 ** 31) - 5, 2 ** 63 + 3]], ['pq', 4, -2 ** 63], ['pg', 10, -0.0]]
 
 
 def tasks(tier, seed):
